@@ -47,7 +47,7 @@ func genSimpleTable(r *Rng, router int) (TableSpec, []genRoute) {
 				}
 			}
 			rel := renderPath(toks, r)
-			rs := RouteSpec{ID: id, Method: r.Pick(methodPool[:4+r.Intn(5)]), Rel: rel}
+			rs := RouteSpec{ID: id, Method: r.Pick(methodPool[:4+r.Intn(9)]), Rel: rel}
 			if r.Pct(20) {
 				rs.Consumes = []string{"application/json"}
 			}
